@@ -192,6 +192,21 @@ class Printer:
         ({obj} = the object expression of a member call printed as a value, without taking its address first)"""
         throws = False
         hoist = False
+        if getattr(self, 'drop_guard', None) is not None:
+            # opt-in (frame proofs, specs/C18): arguments that the mapping does not translate must be free of effects the
+            # spec gives a meaning to; the guard (set by a spec hook) raises Unsupported otherwise
+            bare = mapping.rstrip('!^')
+            if bare in ('@drop', '@nondet', '@throw'):
+                untranslated = list(args) + ([objnode[0]] if objnode else [])
+            elif '{' in bare or '(' in bare:
+                used = {int(x) for x in re.findall(r'\{&?(\d+)\}', bare)}
+                untranslated = [a for i, a in enumerate(args) if i not in used]
+                if objnode and not re.search(r'\{(self|\*self|obj)\}', bare):
+                    untranslated.append(objnode[0])
+            else:
+                untranslated = []
+            for a in untranslated:
+                self.drop_guard(self, a, key)
         if mapping.endswith('!^'):
             # may-throw callee whose result is used inside a larger expression: the call is hoisted into a temporary
             # in front of the statement, followed by the exception check (see stmt / function)
@@ -414,6 +429,9 @@ class Printer:
     def havoc_value(self, n, why):
         """the value of an expression computed from erased numerics: nondeterministic (sound over-approximation)"""
         self.check_pure(n, why)
+        if getattr(self, 'drop_guard', None) is not None:
+            for c in n.get('inner', []):
+                self.drop_guard(self, c, why)       # opt-in (frame proofs): nothing the spec maps may hide inside an erased expression
         line = n.get('range', {}).get('begin', {}).get('line', '?')
         self.erased.append(f'line {line}: {why}')
         self.note('auto-havoc: ' + why.split(':')[0])
@@ -439,12 +457,18 @@ class Printer:
             mapped = None
             if k == 'CXXMemberCallExpr' and inner and inner[0].get('kind') == 'MemberExpr':
                 me = inner[0]
-                mapped = self.lookup(self.members, f'{me["name"]}|{strip_cv(qual(me["inner"][0]["type"]))}')
+                # (the same key as member_call / call build, so that a mapping that tells overloads apart by their literal
+                #  argument or argument count is found here too)
+                lit = string_literal_of(inner[1]) if len(inner) > 1 else None
+                mapped = self.lookup(self.members, f'{me["name"]}|{strip_cv(qual(me["inner"][0]["type"]))}'
+                                     + (f'|"{lit}"' if lit is not None else '') + f'|#{len(inner) - 1}' + self.template_text(me, me["name"]))
             elif k in ('CallExpr', 'CXXOperatorCallExpr'):
                 rd = unwrap(inner[0]).get('referencedDecl')
                 if rd is not None:
                     a0 = strip_cv(qual(inner[1]['type'])) if len(inner) > 1 else ''
-                    mapped = self.lookup(self.calls, f'{rd["name"]}|{rd["type"]["qualType"]}|{a0}')
+                    lit = string_literal_of(inner[1]) if len(inner) > 1 else None
+                    mapped = self.lookup(self.calls, f'{rd["name"]}|{rd["type"]["qualType"]}|{a0}'
+                                         + (f'|"{lit}"' if lit is not None else '') + f'|#{len(inner) - 1}')
             if mapped is None:
                 return self.havoc_value(n, f'erased {k} of opaque type')
         if k in CAST_KINDS:
